@@ -82,6 +82,14 @@ def handle (j : Json) : IO Unit := do
     emit case agree spec s!"discover-round.workers{jnat (jget j "workers")}.bad{(classes.filter (· != "good")).length}of{classes.length}"
       (if spec then "" else if !returned then "discovery-round-never-returns" else if !keeps then "failed-listing-changed-the-catalogue" else "catalogue-stuck-after-bad-listings")
       (if spec && agree then "" else s!"workers {jnat (jget j "workers")}, listings in the middle round {classes}: rounds returned {rounds.map (fun r => jbool (jget r "returned"))}, catalogue per endpoint after each round {rounds.map (fun r => (jget r "names").compress)}")
+  | "discover-overlap" =>
+    -- whole rounds overlapping single-endpoint refreshes while one endpoint keeps answering with garbage
+    if jstr (jget impl "setup_err") != "" then emit case false true "setup-error" "" (jstr (jget impl "setup_err")); return
+    let stuck := jstr (jget impl "stuck")
+    let taken := jbool (jget impl "last_listing_taken_up")
+    let ok := stuck == "" && taken
+    emit case ok ok "discover-overlap" (if ok then "" else if stuck != "" then "discovery-wedged-after-a-bad-listing" else "catalogue-stuck-after-bad-listings")
+      (if ok then "" else s!"{jnat (jget j "n")} endpoints, one answering its listing request with an error page, rounds overlapping single-endpoint refreshes: {stuck} (last good listings taken up: {taken})")
   | "metrics" =>
     let ok := guardOk (jget impl "guard")
     let fin := jbool (jget impl "finite")
